@@ -63,6 +63,7 @@ class Deck:
         self.torn: list[bytes] = []  # unacknowledged artefacts
         self.alive = False
         self.slides_accessed = False
+        self.src_path = None         # real path the deck was opened from, when it was kept (form "path_keep")
 
     def drop_handles(self):
         self.handles.clear()
@@ -157,7 +158,14 @@ class World:
         assert data is not None
         deck.drop_handles()
         deck.slides_accessed = False
-        if form == "path":
+        deck.src_path = None
+        if form == "path_keep":
+            # the source file stays where it is: later events may save onto it or clobber it
+            self.disk.put(deck.image_name, data)
+            p = self.disk.materialize(deck.image_name, "-src%d.pptx" % deck.idx)
+            deck.prs = pptx.Presentation(p)
+            deck.src_path = p
+        elif form == "path":
             self.disk.put(deck.image_name, data)
             p = self.disk.materialize(deck.image_name)
             deck.prs = pptx.Presentation(p)
@@ -183,8 +191,19 @@ class World:
 
     def save_deck(self, deck: Deck, sink_kind: str = "seekable", fault: dict | None = None):
         """prs.save(...) through the chosen sink. Returns (acked, image_or_None, exc_or_None)."""
-        if sink_kind == "path":
-            p = os.path.join(scratch_dir(), "save-%d.pptx" % deck.idx)
+        if sink_kind == "samepath" and not getattr(deck, "src_path", None):
+            sink_kind = "path"
+        if sink_kind in ("path", "samepath"):
+            # "samepath": save onto the very file the deck was opened from
+            p = deck.src_path if sink_kind == "samepath" else os.path.join(scratch_dir(), "save-%d.pptx" % deck.idx)
+            if sink_kind == "samepath":
+                self.probes.hit("saved_onto_the_source_path")
+                try:
+                    deck.prs.save(p)
+                except Exception as e:  # noqa: BLE001
+                    return False, None, e
+                with open(p, "rb") as f:
+                    return True, f.read(), None
             try:
                 deck.prs.save(p)
             except Exception as e:  # noqa: BLE001
